@@ -43,7 +43,11 @@ func (w *Waiter) Wait(ctx context.Context) (ok bool) {
 	// For once schedule, for example, we need to get it only once.
 	waitFor := next.Sub(w.lastNow)
 	if waitFor <= 0 {
-		w.overdueDuration = 0 - waitFor
+		// The cached clock only proves that the event is due. How much it is overdue
+		// has to be measured against the current time, or a waiter that is behind
+		// would judge every following event against the same stale reading.
+		w.lastNow = time.Now()
+		w.overdueDuration = w.lastNow.Sub(next)
 		return true
 	}
 	w.lastNow = time.Now()
